@@ -315,6 +315,62 @@ def isolated_outcomes(cases):
         return pool.map(_iso_job, cases, chunksize=1)
 
 
+# ------------------------------------------------------------------------------------ neighbouring values on one constrained schema
+def _neighbour_types():
+    from pyasn1.type import constraint as C, char
+    return {
+        'BIT STRING (SIZE (8))': (lambda: univ.BitString(subtypeSpec=C.ConstraintsIntersection(C.ValueSizeConstraint(8, 8))),
+                                  ['03020001', '03020780', '0303000001', '030100', '03020080', '03020180', '030200ff'],
+                                  ['00000001', '1', '0000000000000001', '', '10000000', '1000000', '11111111']),
+        'BIT STRING (SIZE (1..8))': (lambda: univ.BitString().subtype(subtypeSpec=C.ValueSizeConstraint(1, 8)),
+                                     ['03020001', '03020780', '0303000001', '030100', '0303000080', '03020600'],
+                                     ['00000001', '1', '0000000000000001', '', '1000000000000000', '00']),
+        'OCTET STRING (SIZE (2))': (lambda: univ.OctetString().subtype(subtypeSpec=C.ValueSizeConstraint(2, 2)),
+                                    ['04026162', '040161', '0403616263', '04020061', '04020000', '0400', '040100'],
+                                    [b'ab', b'a', b'abc', b'\x00a', b'\x00\x00', b'', b'\x00']),
+        'INTEGER (0..9)': (lambda: univ.Integer().subtype(subtypeSpec=C.ValueRangeConstraint(0, 9)),
+                           ['020105', '02010a', '0201ff', '020100', '020109', '0202000a'], [5, 10, -1, 0, 9, True]),
+        'IA5String (FROM ("a".."b"))': (lambda: char.IA5String().subtype(subtypeSpec=C.PermittedAlphabetConstraint('a', 'b')),
+                                         ['16026162', '16026163', '1600', '160161', '160163'], ['ab', 'ac', '', 'a', 'c']),
+    }
+
+
+def neighbour_events(ids):
+    """C12 'no effect on each other' for *different* values on one long-lived schema object: every ordered pair (A, B) of calls
+    (decode of an encoding inside / outside the constraint, encode of a Python value under the schema): B after A on a shared
+    schema object must give what B gives on a schema object of its own."""
+    from pyasn1.codec.der import encoder as der_enc
+    ev, what = [], []
+
+    def show(r):
+        v, rest = r
+        return (v.prettyPrint(), len(v) if hasattr(v, '__len__') else -1, bytes(rest).hex())
+    for name, (mk, wires, pyvals) in sorted(_neighbour_types().items()):
+        def calls(spec):
+            out = []
+            for w in wires:
+                out.append(('decode(%s)' % w, lambda w=w: show(ber_dec.decode(bytes.fromhex(w), asn1Spec=spec))))
+            for pv in pyvals:
+                out.append(('encode(%r, asn1Spec)' % (pv,), lambda pv=pv: bytes(der_enc.encode(pv, asn1Spec=spec)).hex()))
+            return out
+        iso = {}
+        for i, _ in enumerate(calls(mk())):
+            iso[i] = outcome(calls(mk())[i][1])            # each call on a schema object of its own
+        n = len(iso)
+        for a in range(n):
+            for b in range(n):
+                if a == b:
+                    continue
+                spec = mk()
+                cl = calls(spec)
+                outcome(cl[a][1])
+                o = outcome(cl[b][1])
+                ev += [4, 0, ids(o), ids(iso[b]), 0]
+                what.append('%s of %s after %s on the same schema object: %r, on a schema object of its own: %r' % (
+                    cl[b][0], name, cl[a][0], o, iso[b]))
+    return ev, what
+
+
 # ------------------------------------------------------------------------------------ threads
 def thread_part(ctx, cases, rnd):
     """the same call mix on 4 OS threads sharing the schema objects, compared with isolated runs (sampled schedules)"""
@@ -396,6 +452,13 @@ def run(ctx):
             tid += 1
             traces.append({'id': tid, 'ends': [[1]], 'ev': tev})
             meta[tid] = {'kind': 'threads', 'what': twhat}
+        nev, nwhat = neighbour_events(ids)
+        tid += 1
+        traces.append({'id': tid, 'ends': [[1]], 'ev': nev})
+        meta[tid] = {'kind': 'neighbours', 'what': nwhat}
+        ctx.extra['neighbour_clause'] = ('%d ordered pairs of calls with different values (inside / outside the constraint, equal as numbers '
+                                         'but of different length) on one shared constrained schema object, each compared with the call on a '
+                                         'schema object of its own' % len(nwhat))
         selftest = [{'id': 10 ** 8, 'ends': [[1]], 'ev': [3, 1, 5, 6, 0, 4, 0, 7, 8, 0]},
                     {'id': 10 ** 8 + 1, 'ends': [[2]], 'ev': [1, 1, 2, 1, 0, 2, 1, -2, 0, 0]}]
         path = sc.file('sess.ndjson')
@@ -452,4 +515,4 @@ def run(ctx):
                 'by a snapshot comparison of the shared schema object; (c) per (type, value): snapshots of the value object around '
                 'every encoder, of the schema around every decode (valid, damaged, truncated), outcome of every call (made after the '
                 'calls of many other cases in a long-lived worker) compared with the same call in a process of its own, with debug logging on, after a sibling result was edited in place; (d) the call '
-                'mix on 4 threads (sampled); all judged by spec/Trace_Session.tla')
+                'mix on 4 threads (sampled); (e) ordered pairs of calls with neighbouring values on one constrained schema object; all judged by spec/Trace_Session.tla')
